@@ -34,6 +34,22 @@ theorem cleanupMode_canonical (m : Nat) :
         · exact ⟨by decide, by decide⟩
         · exact ⟨by decide, by decide⟩
 
+/-- The stat short-cut of the source IS the exact comparison of the model: `_stat_matches_entry`,
+evaluated from its source by the translator on a grid of (seconds, nanoseconds) time stamps — index
+entries with 0 nanoseconds, as `WorkTree.unstage` writes them, included — gives the model's answer in
+every row.  A rule that ignores nanoseconds (or any field) changes a row and breaks this theorem. -/
+theorem stat_shortcut_as_in_source :
+    Gen.WorkTree.statProbes.all (fun r =>
+      match r with
+      | (trust, sc, sm, sz, ec, em, ez, res) => statMatchesWith trust ⟨sc, sm, sz⟩ ⟨ec, em, ez⟩ == res) = true := by
+  decide
+
+/-- non-vacuity of the probe table: it has rows that differ only in the nanoseconds of an index entry
+whose own nanoseconds are 0, answered "no match". -/
+example : (true, 100000000007, 100000000007, 4, 100000000007, 100000000000, 4, false) ∈ Gen.WorkTree.statProbes ∧
+    (true, 100000000007, 100000000007, 4, 100000000000, 100000000007, 4, false) ∈ Gen.WorkTree.statProbes := by
+  decide
+
 /-! ## 1. status is exact -/
 
 /-- What "exact" means: the five lists are the three-way comparison of HEAD, index and directory. -/
@@ -105,6 +121,35 @@ theorem status_exact : StatusExactStatement := by
         refine ⟨FMap.mem_keys_of_get (lstatView_file_get hview), ?_⟩
         rw [hview]
         simp [FMap.has, hi]
+
+/-- "normal" mode (the default of `porcelain.status`) changes only the untracked list: every untracked
+file is reported either by name or by one of its leading directories, and a directory is reported only
+if the index has nothing below it. -/
+theorem status_normal_untracked (w : World) (s : Status) (h : statusNormal cur w = .ok s) :
+    (∀ u ∈ untrackedOf cur w.wd w.index, collapse w.index u ∈ s.untracked) ∧
+    (∀ q ∈ s.untracked, ∃ u ∈ untrackedOf cur w.wd w.index, q = collapse w.index u) ∧
+    (∀ u d, (ancestorsOf u).find? (fun d => !hasDescendant w.index d) = some d →
+      collapse w.index u = d ++ [slash] ∧ d ∈ ancestorsOf u ∧ hasDescendant w.index d = false) ∧
+    (∀ u, (ancestorsOf u).find? (fun d => !hasDescendant w.index d) = none → collapse w.index u = u) := by
+  unfold statusNormal at h
+  cases hs : status cur w with
+  | error e => rw [hs] at h; cases h
+  | ok s0 =>
+    rw [hs] at h
+    cases h
+    refine ⟨?_, ?_, ?_, ?_⟩
+    · intro u hu
+      simp only [untrackedNormalOf, List.mem_eraseDups, List.mem_map]
+      exact ⟨u, hu, rfl⟩
+    · intro q hq
+      simp only [untrackedNormalOf, List.mem_eraseDups, List.mem_map] at hq
+      obtain ⟨u, hu, he⟩ := hq
+      exact ⟨u, hu, he.symm⟩
+    · intro u d hf
+      refine ⟨by simp [collapse, hf], List.mem_of_find?_eq_some hf, ?_⟩
+      simpa using List.find?_some hf
+    · intro u hf
+      simp [collapse, hf]
 
 /-- The same, phrased over the edit operations of the property's quantifier: start anywhere, apply ANY
 sequence of edits (modify same/different size, chmod, delete, rmtree, create/replace by file, link or
